@@ -36,8 +36,8 @@ PROPS["C03"] = dict(
     proof_files=["Assets_proofs.v", "Select_proofs.v", "Select_flat.v", "Select_complete.v"],
     check_files=["C03_check.v"],
     theorems=["C03_constraints", "C03_meets_is_address_and_ref", "C03_single", "C03_many_covers",
-              "C03_single_complete", "C03_many_complete", "C03_candidates_exact", "C03_single_block_served", "C03_window"],
-    partial=["that the candidates of the property reach coin selection (and nothing else does) is a theorem when the search space fits the window of 50 (C03_candidates_exact); beyond the window which UTxOs are topped up is the hash set's choice and completeness is not claimed by the property either; end-to-end completeness is stated for single-UTxO blocks (C03_single_block_served), for `many` blocks it is pick_many_complete over the candidate list plus clause 107 per case"],
+              "C03_single_complete", "C03_many_complete", "C03_candidates_exact", "C03_single_block_served", "C03_many_block_served", "C03_window"],
+    partial=["that the candidates of the property reach coin selection (and nothing else does) is a theorem when the search space fits the window of 50 (C03_candidates_exact); beyond the window which UTxOs are topped up is the hash set's choice and completeness is not claimed by the property either; end-to-end completeness is stated for single-UTxO blocks (C03_single_block_served) and for `many` blocks (C03_many_block_served: the candidates handed to coin selection together cover the amount)"],
     trusted_base=SELECT_TB,
     assumptions=["UTxO amounts and min_amount are non-negative", "stores hold at most 50 UTxOs (the property's window)"],
     check_names={101: "selected UTxOs exist in the store", 102: "from/ref constraints", 103: "single input: one UTxO covering min_amount alone",
@@ -245,7 +245,7 @@ PROPS["C14"] = dict(
     trusted_base=COMPILE_TB, assumptions=[],
     keep_ids=_only(lambda i: i in (1, 2) or 140 <= i < 150),
     check_names={140: "the implementation panicked where the model has no panic site", 141: "fixed-size hash from wrong-length bytes", 142: "textual utxo reference", 143: "missing script bytes", 144: "native script decode",
-                 145: "arithmetic overflow", 146: "Coerce::IntoScript todo!", 149: "other panic site of the model"},
+                 145: "arithmetic overflow", 146: "Coerce::IntoScript todo!", 147: "a stage before compile (apply, compiler ops, reduce) panicked on a generated template", 149: "other panic site of the model"},
 )
 
 PROPS["C11"] = dict(
